@@ -1,5 +1,4 @@
 import json
-from json.decoder import JSONDecodeError
 from typing import Union
 
 from .exceptions import InvalidAuthenticationResponse, InvalidJSONStructure
@@ -20,7 +19,7 @@ def parse_authentication_credential_json(json_val: Union[str, dict]) -> Authenti
     if isinstance(json_val, str):
         try:
             json_val = json.loads(json_val)
-        except JSONDecodeError:
+        except ValueError:  # JSONDecodeError, or the int digit limit on huge literals
             raise InvalidJSONStructure("Unable to decode credential as JSON")
 
     if not isinstance(json_val, dict):
